@@ -181,6 +181,10 @@ def _b_range(interp, args, kw, st, node):
 
 
 def _b_enumerate(interp, args, kw, st, node):
+    start = args[1] if len(args) > 1 else kw.get("start")
+    if start is not None and not (start.has_const and start.const == 0):
+        # enumerate(x, s): the counter starts at s
+        return V("enumerate", T("enumerate", args[0].term, start.term), items=[args[0]], labels=args[0].labels | start.labels, orig=args[0].orig, extra=("start", start))
     return V("enumerate", T("enumerate", args[0].term), items=[args[0]], labels=args[0].labels, orig=args[0].orig)
 
 
